@@ -293,6 +293,9 @@ func (hs *serverHandshakeState) processClientHello() error {
 func supportsECDHE(c *Config, supportedCurves []CurveID, supportedPoints []uint8) bool {
 	supportsCurve := false
 	for _, curve := range supportedCurves {
+		if isTLS13OnlyKeyExchange(curve) {
+			continue // ML-KEM hybrid groups cannot carry a pre-TLS 1.3 ECDHE exchange.
+		}
 		if c.supportsCurve(curve) {
 			supportsCurve = true
 			break
